@@ -440,7 +440,7 @@ def run_case(case, ctx):
 
 
 def plan(tier, seed, n):
-    per, nw, cap = (250, 3, 60) if tier == 'quick' else (8000, 40, 720)
+    per, nw, cap = (600, 5, 60) if tier == 'quick' else (25000, 120, 720)
     return [{'n': per, 'nw': nw, 'cap': cap} for _ in range(n)]
 
 
